@@ -83,6 +83,9 @@ def run(ctx):
         ev = evs[l - 1] if 0 < l <= len(evs) else None
         if ev and ev.get("got") == -2:
             key, what = "C19/dial/panic", "a registry call panicked under concurrent register/unregister/dial"
+        elif ev and ev.get("op") == "Progress":
+            key, what = "C19/dial/no-progress", "while one dial was in progress other registry calls did not complete (returned=%s), or a dialer could not dial through the registry (forward=%s)" % (
+                ev.get("returned"), ev.get("forward"))
         else:
             key, what = "C19/dial/not-linearisable", "no linearisation explains the result of event %d: %s" % (l, ev)
         vlib.report_violation(ctx, key, what, {"history": evs[:l + 4], "rejected_at": l})
